@@ -615,3 +615,108 @@ func filterCoinbase(calls []spy.Call) []spy.Call {
 	}
 	return r
 }
+
+const ruleRounds = "several synchronisation rounds in ONE process interleaved with chain changes: extend the best chain, reorganise to a longer branch forking at a drawn height (also BELOW blocks that earlier rounds already processed), run a round to completion (verif hook), block-source failures as in the round leg; oracle after every round: the blocks processed in that round are exactly the best-chain blocks above the most recent block ON THE CURRENT BEST CHAIN that an earlier round processed (or from the start height), ascending and contiguous, each once, and a block processed in an earlier round is never processed again; non-trivial = a round after a reorganisation that replaced already-processed blocks; distinct = hash of the operation list"
+
+func TestProp_C05_rounds(t *testing.T) {
+	col := evid.For("C05", "rounds", ruleRounds)
+	rapid.Check(t, func(t *rapid.T) {
+		k := col.NewCase()
+		ctx := vt.Ctx()
+		w := newWorld()
+		best := w.extend(t, genesis, 0, rapid.IntRange(1, 6).Draw(t, "initial"), 0x1d00ffff) // best[i] has height i+1
+		start := rapid.IntRange(1, 3).Draw(t, "start")
+		r := newRig(w, start, nil)
+		defer r.close()
+		processedBefore := 0
+		reorgBelowProcessed := false
+		nontrivial := false
+		t.Repeat(map[string]func(*rapid.T){
+			"extend": func(t *rapid.T) {
+				n := rapid.IntRange(1, 4).Draw(t, "n")
+				tip := best[len(best)-1]
+				best = append(best, w.extend(t, tip.header, tip.height, n, 0x1d00ffff)...)
+				k.Op("extend +%d", n)
+			},
+			"reorg": func(t *rapid.T) {
+				f := rapid.IntRange(max(0, len(best)-100), len(best)-1).Draw(t, "forkHeight") // within MaxBranchDepth 144
+				n := len(best) - f + 1 + rapid.IntRange(0, 2).Draw(t, "extra")
+				parent := genesis
+				if f > 0 {
+					parent = best[f-1].header
+				}
+				for h := f + 1; h <= len(best); h++ {
+					if r.log.Processed(best[h-1].hash) {
+						reorgBelowProcessed = true
+					}
+				}
+				nb := w.extend(t, parent, f, n, 0x1d00ffff)
+				best = append(append([]*blk(nil), best[:f]...), nb...)
+				if got := model.Hash(w.repo.LastHash()); got != best[len(best)-1].hash {
+					t.Fatalf("setup: reorganisation did not take (fork %d, new length %d)", f, n)
+				}
+				k.Op("reorg fork=%d len=%d", f, n)
+			},
+			"round": func(t *rapid.T) {
+				var fates []string
+				for i := rapid.IntRange(0, 2).Draw(t, "failures"); i > 0; i-- {
+					fates = append(fates, rapid.SampledFrom([]string{"nonode", "drop", "wrong"}).Draw(t, "fate"))
+				}
+				r.src.mu.Lock()
+				r.src.fates = fates
+				r.src.mu.Unlock()
+				// expectation
+				var want []int
+				T := len(best)
+				if T >= start && !r.log.Processed(best[T-1].hash) {
+					lo := T
+					for lo > start && !r.log.Processed(best[lo-2].hash) {
+						lo--
+					}
+					for h := lo; h <= T; h++ {
+						want = append(want, h)
+					}
+				}
+				done := make(chan error, 1)
+				go func() { done <- r.nm.VerifSynchronizeBlocks(ctx, r.stop) }()
+				select {
+				case err := <-done:
+					if err != nil {
+						t.Fatalf("round: %s", err)
+					}
+				case <-time.After(20 * time.Second):
+					t.Fatalf("round did not finish (want %v)", want)
+				}
+				calls := filterCoinbase(r.log.Calls())
+				var got []int
+				for _, c := range calls[processedBefore:] {
+					w.mu.Lock()
+					b := w.blocks[c.Block]
+					w.mu.Unlock()
+					onBest := b != nil && b.height <= len(best) && best[b.height-1].hash == b.hash
+					if !onBest {
+						t.Fatalf("round processed a block that is not on the best chain (height %v)", b)
+					}
+					got = append(got, b.height)
+				}
+				seen := map[model.Hash]bool{}
+				for _, c := range calls {
+					if seen[c.Block] {
+						t.Fatalf("block processed twice over the rounds")
+					}
+					seen[c.Block] = true
+				}
+				if fmt.Sprint(got) != fmt.Sprint(want) {
+					t.Fatalf("round processed heights %v, expected %v (best chain length %d, start %d, reorg below processed blocks earlier: %v)", got, want, len(best), start, reorgBelowProcessed)
+				}
+				processedBefore = len(calls)
+				if reorgBelowProcessed && len(want) > 0 {
+					nontrivial = true
+				}
+				k.Op("round -> %v", got)
+			},
+		})
+		k.NonTrivial = nontrivial
+		k.Done()
+	})
+}
